@@ -121,8 +121,7 @@ CHECKS = {
                   'unit / declared constants through the real monitors (offline, online, pastified, dense) vs the '
                   'canonical notation; exception-class monitor for non-multiple bounds',
         text='Exploration over generated formulas x 5 periods x 4 default units x 7 spellings; non-multiple bounds '
-             'must raise RTAMTException. Two open findings of pastify() (next counted in units, non-multiples hidden) '
-             'are reported as KNOWN-FINDING by precondition.',
+             'must raise RTAMTException (also after pastify()).',
         note='Trusted base: duration printer props/c08.py:dur_in (exact decimal literals), canonical run = bounds in '
              'samples with period 1 s.',
         ref='DESIGN.md §7 C08'),
